@@ -14,8 +14,8 @@ import vlib
 
 META = {
     "category": "proof",
-    "text": "Coq theorems (Table/Props_C10.v, 20 theorems, all closed under the global context) over an executable model of sst/src/block.rs, sst/src/sbbf.rs and the SST layer of sst/src/lib.rs, for all entry sequences, all restart intervals (0 included) / target block sizes / bloom sizes and all finite cursor programs: BlockCursor and SstCursor refine the reference cursor (seek/next/prev through restart points, the reverse cache and block hopping), Block::load and Sst::load return the newest version not newer than the timestamp or its tombstone (bloom filter without false negatives for any hash), Sst::metadata is exact, divide_keys stays in [lhs, rhs) without tripping an assert, builders accept exactly the in-order, in-size input and reject the rest from checks that precede every mutation, the multi-builder's tables concatenate to the accepted input; at the byte level (on top of the Wire area's prototk model, C15): the record / BlockMetadata / frame / final-block bytes of the model are the reference prototk encodings of the shapes declared in sst/src/lib.rs, of the sizes the builders compute with, and decode back; and the BYTES a BlockBuilder writes, parsed by Block::new + BlockCursor over raw bytes with prototk's decoder, give the reference cursor's observations and the reference lookup; the model is tied to the code by 3-way differential runs (Rust vs extracted model vs the specification computed in Python), with byte-for-byte comparison of sealed blocks, of file sizes and of file counts.",
-    "note": "Trusted: Coq kernel; tools/constants.py; ExtrOcamlBasic extraction + ocaml/table driver; harness c10; record sizes / BlockMetadata codec / item hash enter the theorems as section variables with stated hypotheses (positive and bounded size, decode(encode)=id, short encoding), proved for the prototk instance on the u64 range; the block layer is proved down to raw bytes (message shapes retyped from the derive attributes, which are literals; the sealed blocks' bytes are compared with the implementation's on every run); the SstCursor theorem is still stated over the frame list, with the frame / final-block codecs proved separately; CRC32C, SipHash and SHA3 are arbitrary functions; table-full (1 GiB) is covered by the theorems only. Models the repaired code: fix: 23addcc (empty block/SST), a9a83c0 (restart interval 0), de09506 (multi-builder sort order across cuts).",
+    "text": "Coq theorems (Table/Props_C10.v, 24 theorems, all closed under the global context) over an executable model of sst/src/block.rs, sst/src/sbbf.rs and the SST layer of sst/src/lib.rs, for all entry sequences, all restart intervals (0 included) / target block sizes / bloom sizes and all finite cursor programs: BlockCursor and SstCursor refine the reference cursor (seek/next/prev through restart points, the reverse cache and block hopping), Block::load and Sst::load return the newest version not newer than the timestamp or its tombstone (bloom filter without false negatives for any hash), Sst::metadata is exact, divide_keys stays in [lhs, rhs) without tripping an assert, builders accept exactly the in-order, in-size input and reject the rest from checks that precede every mutation, the multi-builder's tables concatenate to the accepted input; at the byte level (on top of the Wire area's prototk model, C15): the record / BlockMetadata / frame / final-block bytes of the model are the reference prototk encodings of the shapes declared in sst/src/lib.rs, of the sizes the builders compute with, and decode back; the BYTES a BlockBuilder writes, parsed by Block::new + BlockCursor over raw bytes with prototk's decoder, give the reference cursor's observations and the reference lookup; and the same for whole FILES: for every sequence an SstBuilder accepts, under all options, the bytes seal leaves in the file (data block frames, index block whose BlockMetadata values carry the data blocks' checksums, filter frame, FinalBlock ending in final_block_offset), read with nothing but Sst::from_file_handle (trailing 8 bytes, FinalBlock unpack, position checks, index read-back, data-blocks-before-index check, filter load) and load_block over [start, limit) (frame unpack, checksum comparison, Block::new), give under every cursor program the reference cursor's observations, the reference lookup and exact metadata with file_size = the length of the file (C10_file_cursor_refines / C10_file_load / C10_file_metadata_exact; crc32c any function into u32, the digest any function into 32 bytes); the message shapes are proved equal to the ones regenerated from /repo's derive attributes on every run (C10_shapes_are_source). The model is tied to the code by 3-way differential runs (Rust vs extracted model vs the specification computed in Python), with byte-for-byte comparison of sealed blocks, of file sizes and of file counts, and at the file level: the extracted byte-level reader runs on the bytes of the files the implementation wrote (same observations, metadata and lookups as the real cursor) and the extracted writer reproduces those files byte for byte (native CRC-32C, SHA3 setsum from the specification).",
+    "note": "Trusted: Coq kernel; tools/constants.py; ExtrOcamlBasic extraction + ocaml/table driver; harness c10; record sizes / BlockMetadata codec / item hash enter the theorems as section variables with stated hypotheses (positive and bounded size, decode(encode)=id, short encoding), proved for the prototk instance on the u64 range; the block layer and the SST layer are proved down to raw file bytes (message shapes proved equal to Gen/Shapes_sst.v, regenerated from the derive attributes by tools/shapes.py; blocks and whole files are compared byte for byte with the implementation's on every run); CRC32C is an arbitrary function into u32 (the OCaml driver supplies a table-driven CRC-32C, validated by the byte comparison of the files), SipHash and SHA3 are arbitrary functions (the digest is an input of the model's writer); table-full (1 GiB) is covered by the theorems only. Models the repaired code: fix: 23addcc (empty block/SST), a9a83c0 (restart interval 0), de09506 (multi-builder sort order across cuts).",
 }
 
 PROPS = "theories/Table/Props_C10.v"
@@ -644,7 +644,7 @@ def consts_json(area):
 
 
 def run(chk):
-    ok_proof, info = vlib.proof_stage(chk, PROPS, MODULE, const_areas=("Table",), pins_rel="pins/C10.v")
+    ok_proof, info = vlib.proof_stage(chk, PROPS, MODULE, const_areas=("Table", "Wire"), pins_rel="pins/C10.v")
     tconsts = consts_json("Table")
     primes = consts_json("Setsum")["SETSUM_PRIMES"]
     sip_key = bytes(tconsts["SBBF_KEY"])
@@ -722,6 +722,41 @@ def run(chk):
         if e3:
             model_spec_bad.append({"tag": c["tag"], "case": c["impl"], "why": e3, "model_out": mo[:4000]})
 
+    # ---- second pass, file level: the byte-level reader of the model (Sst::from_file_handle,
+    # SstCursor, Sst::load, Sst::metadata over FILE BYTES, Table/ModelFile.v) on the bytes of the
+    # file the IMPLEMENTATION wrote, against the implementation's own observations; and the file
+    # the model's builder writes (sst_bytes, with a native CRC-32C and the specification's setsum
+    # digest) against the implementation's file, byte for byte
+    fcases = []
+    for c, io in zip(cases, impl_out):
+        if c["kind"] != "S":
+            continue
+        it = io.split()
+        fi = [i for i, t in enumerate(it) if t.startswith("f:")]
+        if not fi or it[fi[0]] == "f:-" or fi[0] < 2 or it[fi[0] - 2] != "seal:ok":
+            continue
+        acc = spec.accept(c["inputs"])[0]
+        line = "R" + c["model"][1:] + " | " + it[fi[0]][2:] + " | " + spec.setsum(acc)
+        fcases.append((c, it[fi[0] - 1], it[fi[0] + 1:], line))
+    file_bad = []
+    if fcases:
+        rc3, file_out = run_lines(mx, [x[3] for x in fcases], chk.work, "file", nproc=npar)
+        if len(file_out) != len(fcases):
+            raise RuntimeError("file pass: output line count %d, cases %d (rc %d)" % (len(file_out), len(fcases), rc3))
+        for (c, meta_tok, outs, line), fo in zip(fcases, file_out):
+            ft = fo.split()
+            why = None
+            if not ft or ft[0] != "wr:ok":
+                why = "the file the model's builder writes differs from the implementation's: %s" % (ft[:1],)
+            elif len(ft) < 2 or ft[1] != meta_tok:
+                why = "metadata read from the file bytes: model %s impl %s" % (ft[1:2], meta_tok[:200])
+            elif ft[2:] != outs:
+                k = next((i for i, (a, b) in enumerate(zip(ft[2:], outs)) if a != b), min(len(ft) - 2, len(outs)))
+                why = "observation %d over the file bytes: model %s impl %s" % (k, ft[2 + k:3 + k], outs[k:k + 1])
+            if why:
+                file_bad.append({"tag": c["tag"], "case": c["impl"], "why": why, "impl_out": " ".join([meta_tok] + outs)[:3000], "model_out": fo[:3000]})
+    corr_bad += file_bad
+
     gen0 = ncorpus + exhaustive
     chk.coverage.update({
         "evaluations": len(cases), "distinct_nontrivial": len(distinct),
@@ -730,6 +765,8 @@ def run(chk):
         "input_distribution": dict(stats, entries_total=nentries, rejections=rej_kinds),
         "corpus_cases": ncorpus, "exhaustive_small_scope_cases": exhaustive, "exhaustive": bool(exhaustive),
         "files_parsed_and_filter_compared": FILE_STATS.get("files_parsed", 0),
+        "files_read_by_model_byte_reader_and_written_byte_for_byte": len(fcases),
+        "disagreements_file_level": len(file_bad),
         "correspondence": "impl (Rust sst crate, release + overflow-checks + debug-assertions) vs extracted Coq model (block bytes, file sizes, file counts, frame layout and bloom filter bytes of files up to 4 KiB, every observation) vs the specification in Python (reference cursor, lookup, metadata, setsum via hashlib SHA3-256), 3-way",
         "disagreements_impl_vs_spec": len(prop_bad), "disagreements_impl_vs_model": len(corr_bad),
         "disagreements_model_vs_spec": len(model_spec_bad),
@@ -738,14 +775,16 @@ def run(chk):
             "tools/constants.py (MAX_KEY_LEN, MAX_VALUE_LEN, TABLE_FULL_SIZE, BLOCK_METADATA_MAX_SZ, bloom SALT/KEY re-extracted from sst/src on every run); MAX_KEY and FINAL_BLOCK_MAX_SZ are retyped in ModelSst.v (the translator cannot read them) and are exercised by the file-size / approximate-size comparison",
             "extraction via ExtrOcamlBasic (no Extract Constant of ours) + ocaml/table/mx_table.ml driver",
             "harness/src/bin/c10.rs; the Python specification in checks/c10.py; hashlib SHA3-256; a Python SipHash-2-4 (feeds the model's filter; validated on every run by the byte comparison of the filter blocks)",
-            "record size enc_size, BlockMetadata codec and the item hash are section variables; theorems assume positivity of enc_size and decode(encode)=id of the metadata codec; CRC32C, SHA3 and SipHash are arbitrary functions",
+            "record size enc_size, BlockMetadata codec and the item hash are section variables; theorems assume positivity of enc_size and decode(encode)=id of the metadata codec; the file-level theorems are for the real record size and the prototk BlockMetadata codec, with CRC32C any function into u32 and the setsum digest any function into 32 bytes; SipHash is an arbitrary function",
+            "ocaml/table/mx_table.ml's CRC-32C (Castagnoli, table driven) and hex plumbing of the file pass; the Wire area's prototk model (C15) under the byte-level theorems",
         ],
     })
     chk.assumptions = [
         "enc_size (byte length of a KeyValueEntry record) is positive (and, for the acceptance theorems, bounded on records made from checked entries); proved for the prototk arithmetic (C10_real_instance_ok), which is compared byte for byte with the implementation",
         "meta_dec (meta_enc s l) = Some (s, l) for the BlockMetadata codec: proved for the prototk codec on offsets below 2^64 (C10_real_instance_ok); byte offsets in a table are below 2^31",
         "keys are byte strings (every element < 256) and timestamps fit a u64 where the theorems say keys_ok / ts_ok",
-        "CRC32C never fails on undamaged files (damage is C09's subject); SHA3-256 / SipHash-2-4 are arbitrary functions",
+        "crc32c returns a u32 and the setsum digest is 32 bytes (crc_u32 / digest_32 in the file-level theorems): the builder writes crc32c(payload) and the reader compares, nothing else is assumed (damage is C09's subject); SipHash-2-4 is an arbitrary function",
+        "file-level theorems: entries are byte strings with u64 timestamps (entries_wire_ok)",
         "table-full (approximate size >= 1 GiB - 64 MiB) is covered by the theorems only; the correspondence cannot reach it",
     ]
 
